@@ -146,6 +146,48 @@ def run_case(case):
             if dk:
                 viol.append(dict(mech='snapshot:loaded-state-differs:' + ','.join(dk)[:60], msg='snapshot %d loaded through the reader differs from the live state when taken in %r (load order %r)' % (k, dk, order[:8])))
                 return False
+        # (b') loading by TIME: getSimulation(t) is documented to return "the snapshot just before t" (sim.t <= t) - the last snapshot written with a
+        # time not after t, also when several snapshots share that time (a manual snapshot right after an automatic one, edits without a step in
+        # between; the restart idiom getSimulation(sa.tmax) must resume from the LAST state saved).  Only for archives whose times ascend.
+        T_ = [sa.t[k_] for k_ in range(len(expected))]
+        if len(T_) >= 2 and all(a_ <= b_ for a_, b_ in zip(T_, T_[1:])) and abs(T_[0]) < 1e300 and abs(T_[-1]) < 1e300:
+            rq = random.Random(case['hseed'] * 7 + len(expected))
+            distinct = sorted(set(T_))
+            shared = [t_ for t_ in distinct if T_.count(t_) > 1]
+            queries = rq.sample(distinct, min(4, len(distinct))) + rq.sample(shared, min(3, len(shared)))
+            for _ in range(min(3, len(distinct) - 1)):
+                i_ = rq.randrange(len(distinct) - 1)
+                mid_ = distinct[i_] + (distinct[i_ + 1] - distinct[i_]) * rq.random()
+                if distinct[i_] <= mid_ < distinct[i_ + 1]:
+                    queries.append(mid_)
+
+            def sig(c_):
+                # getSimulation = load + synchronise for output (which runs the integrator's init: it may select the gravity routine and which
+                # terms it ignores, and rewrites coordinates and masses from the integrator's internal ones): compare everything else
+                d_ = dict((q_, v_) for q_, v_ in c_.items() if not q_.startswith('ri_') and q_ not in ('particles', 'functionpointers', 'gravity', 'gravity_ignore_terms'))
+                pb_ = c_.get('particles', b'')
+                d_['particles:r,last_collision,hash'] = b''.join(pb_[o_ + 80:o_ + 96] + pb_[o_ + 104:o_ + 108] for o_ in range(0, len(pb_), rt.PARTICLE_SIZE))
+                return d_
+            for tq in queries:
+                kexp = max(k_ for k_ in range(len(T_)) if T_[k_] <= tq)
+                nshared = T_.count(T_[kexp])
+                counters['loads_by_time'] = counters.get('loads_by_time', 0) + 1
+                if nshared > 1:
+                    counters['loads_by_time_at_a_time_shared_by_several_snapshots'] = counters.get('loads_by_time_at_a_time_shared_by_several_snapshots', 0) + 1
+                try:
+                    if hasattr(sa, '_getSnapshotIndex'):
+                        bi_, bt_ = sa._getSnapshotIndex(tq)
+                        if bi_ != kexp or rt.dbits(bt_) != rt.dbits(T_[kexp]):
+                            viol.append(dict(mech='load-by-time:not-the-last-snapshot-at-or-before-t', msg='snapshot index for t=%r is (%d, t=%r); the last snapshot written with time <= t is %d (t=%r, %d snapshots share it); times %r' % (tq, bi_, bt_, kexp, T_[kexp], nshared, T_[max(0, kexp - 3):kexp + 3])))
+                            return False
+                    sq = sa.getSimulation(tq)
+                except Exception as e:
+                    viol.append(dict(mech='load-by-time:raises', msg='getSimulation(%r): %s: %s' % (tq, type(e).__name__, e)))
+                    return False
+                dk = rt.diff_keys(sig(rt.sabin_sim(sq)), sig(expected[kexp]['canon']))
+                if dk:
+                    viol.append(dict(mech='load-by-time:not-the-last-snapshot-at-or-before-t' + (','.join(dk) if os.environ.get('C06_DK') else ''), msg='getSimulation(%r) differs from snapshot %d (the last one with time <= t; %d snapshots share t=%r) in %r' % (tq, kexp, nshared, T_[kexp], dk)))
+                    return False
         del sa
         return True
 
@@ -472,7 +514,7 @@ def main(tier, seed):
                     continue
             V.absorb(c, r, crash_mech)
     inc = []
-    for k in ('snapshots_auto', 'snapshots_manual', 'readbacks', 'arrays_shrunk', 'arrays_grown', 'fields_vanished', 'fields_reappeared', 'cadence_checked_step', 'cadence_checked_interval'):
+    for k in ('loads_by_time', 'loads_by_time_at_a_time_shared_by_several_snapshots', 'snapshots_auto', 'snapshots_manual', 'readbacks', 'arrays_shrunk', 'arrays_grown', 'fields_vanished', 'fields_reappeared', 'cadence_checked_step', 'cadence_checked_interval'):
         if V.counters.get(k, 0) == 0:
             inc.append('monitor counter %s is zero' % k)
     dead = V.counters.get('process_deaths_outside_archive_code', 0) + V.counters.get('process_deaths_unattributed', 0)
